@@ -120,6 +120,21 @@ func main() {
 		for _, s := range PoolPrefix(b) {
 			step(s)
 		}
+		// HAVING that keeps only part of the solutions: the template must be instantiated for the kept rows only
+		for _, add := range []bool{true, false} {
+			for _, hv := range []string{" HAVING ?s = ?o", ` HAVING ?o = "1"^^type:int64`} {
+				c := pool[4]
+				c.Add, c.Hav = add, hv
+				if !add {
+					c.Outs, c.Ins = []string{"?a"}, []string{"?a"}
+					c.Tmpl = pool[6].Tmpl
+					c.Text = fmt.Sprintf("DECONSTRUCT { %s } IN ?a FROM ?a WHERE { %s }%s;", b.RenderTemplate(c.Tmpl), c.Note, hv)
+				} else {
+					c.Text = strings.TrimSuffix(c.Text, ";") + hv + ";"
+				}
+				step(c)
+			}
+		}
 		step(pool[5]) // reifying CONSTRUCT into ?b
 		step(pool[3]) // DROP GRAPH ?b
 		if len(b.UUID) > 0 {
